@@ -6,5 +6,7 @@ CONSTANTS
  MaxSeg = 5
  MaxOps = 99
  MaxHist = 12
+ Groups = {1, 2}
+ Snapshots = TRUE
 INVARIANT EmitHist
 CHECK_DEADLOCK FALSE
